@@ -37,9 +37,9 @@ KE == <<"extends", "render", "renderd">>
 All5 == <<A, B, DA, DB, DEA>>
 Fams ==
   IF Tier = 1 THEN
-    << Fam(<<A, B, DA>>, A, K3, PRootMix, 3),
-       Fam(<<A, DA, DEA>>, DA, KI, PMidMix, 3),
-       Fam(<<B, DB, DEA>>, DEA, KE, PDeepMix, 3),
+    << Fam(<<A, B, DA>>, A, K3, PRootMix \ {<<"..", "..", "b.html">>}, 3),
+       Fam(<<A, DA, DEA>>, DA, KI, PMidMix \ {<<".", "a.html">>}, 3),
+       Fam(<<B, DB, DEA>>, DEA, KE, PDeepMix \ {<<"", "d", "e", "a.html">>}, 3),
        Fam(All5, A, K4, PAll, 1), Fam(All5, DA, K4, PAll, 1), Fam(All5, DEA, K4, PAll, 1),
        Fam(<<A>>, B, K3, {}, 0), Fam(<<DA>>, A, K3, {}, 0) >>
   ELSE
@@ -85,31 +85,32 @@ LiveCode(fam, c) == LET refs == RefsOfCode(fam, c)
 RECURSIVE UpTo(_, _)
 UpTo(fam, n) == IF n = 0 THEN Level(fam, 0) ELSE UpTo(fam, n - 1) \cup Level(fam, n)
 Codes(fam) == {c \in UpTo(fam, fam.max) : LiveCode(fam, c)}
+\* (zero-argument definition: TLC evaluates it once)
+CodeSets == [fi \in 1..Len(Fams) |-> Codes(Fams[fi])]
 GraphOf(fi, c) == [files |-> {Fams[fi].files[i] : i \in 1..Len(Fams[fi].files)}, entry |-> Fams[fi].entry, refs |-> RefsOfCode(Fams[fi], c)]
 
-VARIABLES st, picked
-vars == <<st, picked>>
-EmptyGraph == [files |-> {}, entry |-> A, refs |-> <<>>]
-\* one initial state and a Pick action (thousands of initial states make TLC's liveness check quadratic)
-Init == picked = FALSE /\ st = InitSt(EmptyGraph)
-Pick == ~picked /\ picked' = TRUE /\ \E fi \in 1..Len(Fams) : \E c \in Codes(Fams[fi]) : st' = InitSt(GraphOf(fi, c))
-Act(G, E) == picked /\ UNCHANGED picked /\ G /\ st' = Tick(E)
-StartMissing == Act(G_StartMissing(st), E_StartMissing(st))
-StartSyntax == Act(G_StartSyntax(st), E_StartSyntax(st))
-Start == Act(G_Start(st), E_Start(st))
-ReturnTop == Act(G_ReturnTop(st), E_ReturnTop(st))
-ReturnChild == Act(G_ReturnChild(st), E_ReturnChild(st))
-ExtendsForbidden == Act(G_ExtendsForbidden(st), E_ExtendsForbidden(st))
-EscapeFail == Act(G_EscapeFail(st), E_EscapeFail(st))
-EscapeTolerated == Act(G_EscapeTolerated(st), E_EscapeTolerated(st))
-Cycle == Act(G_Cycle(st), E_Cycle(st))
-CacheConflict == Act(G_CacheConflict(st), E_CacheConflict(st))
-CacheReuse == Act(G_CacheReuse(st), E_CacheReuse(st))
-ReadMissingFail == Act(G_ReadMissingFail(st), E_ReadMissingFail(st))
-ReadMissingTolerated == Act(G_ReadMissingTolerated(st), E_ReadMissingTolerated(st))
-ReadSyntax == Act(G_ReadSyntax(st), E_ReadSyntax(st))
-ReadPush == Act(G_ReadPush(st), E_ReadPush(st))
-Next == Pick \/ StartMissing \/ StartSyntax \/ Start \/ ReturnTop \/ ReturnChild \/ ExtendsForbidden \/ EscapeFail
+(* The model as a TLC state machine: st is the loader's state, pc the label of the branch taken
+   next (computed once per state); one action per branch.                                       *)
+VARIABLES st, pc
+vars == <<st, pc>>
+Init == \E fi \in 1..Len(Fams) : \E c \in CodeSets[fi] : st = InitSt(GraphOf(fi, c)) /\ pc = Br(st)
+Act(b) == pc = b /\ st' = Tick(Eff(b, st)) /\ pc' = Br(st')
+StartMissing == Act("StartMissing")
+StartSyntax == Act("StartSyntax")
+Start == Act("Start")
+ReturnTop == Act("ReturnTop")
+ReturnChild == Act("ReturnChild")
+ExtendsForbidden == Act("ExtendsForbidden")
+EscapeFail == Act("EscapeFail")
+EscapeTolerated == Act("EscapeTolerated")
+Cycle == Act("Cycle")
+CacheConflict == Act("CacheConflict")
+CacheReuse == Act("CacheReuse")
+ReadMissingFail == Act("ReadMissingFail")
+ReadMissingTolerated == Act("ReadMissingTolerated")
+ReadSyntax == Act("ReadSyntax")
+ReadPush == Act("ReadPush")
+Next == StartMissing \/ StartSyntax \/ Start \/ ReturnTop \/ ReturnChild \/ ExtendsForbidden \/ EscapeFail
         \/ EscapeTolerated \/ Cycle \/ CacheConflict \/ CacheReuse \/ ReadMissingFail \/ ReadMissingTolerated
         \/ ReadSyntax \/ ReadPush
 Spec == Init /\ [][Next]_vars /\ WF_vars(Next)
@@ -120,29 +121,32 @@ Spec == Init /\ [][Next]_vars /\ WF_vars(Next)
 \* reference, pushes a file read for the first time, or pops it); and eventually an outcome
 DepthBound == Len(st.stack) <= Cardinality(st.g.files) /\ Cardinality(Paths(st)) = Len(st.stack)
 StepBound == st.steps <= 2 + Len(st.g.refs) + 2 * Cardinality(st.g.files)
-Terminates == <>(picked /\ Final(st))
-ExactlyOneBranch == (picked /\ ~Final(st)) => Cardinality({b \in 1..15 :
-     <<G_StartMissing(st), G_StartSyntax(st), G_Start(st), G_ReturnTop(st), G_ReturnChild(st), G_ExtendsForbidden(st),
-       G_EscapeFail(st), G_EscapeTolerated(st), G_Cycle(st), G_CacheConflict(st), G_CacheReuse(st), G_ReadMissingFail(st),
-       G_ReadMissingTolerated(st), G_ReadSyntax(st), G_ReadPush(st)>>[b]}) = 1
-\* every property clause holds on the model's own log, at every step (opened names valid and
-\* explained by a reference of an opened file, none opened twice) and at the end (cycle => error,
-\* leaving the root => not-found error)
+Terminates == <>(pc = "Done")
+PcOk == (pc = "Done") = Final(st)
+\* every property clause holds on the model's own log: at every step, opened names are valid,
+\* explained by a reference of an opened file, none read twice; at the end, cycle => error,
+\* leaving the root => not-found error
 PropertyOnModel == IF Final(st) THEN Clause(st.g, ModelOpens(st), st.out, TRUE) = "" ELSE OpenClause(st.g, ModelOpens(st)) = ""
 OpenedAtMostOnce == \A i, j \in 1..Len(st.opens) : (i # j /\ st.opens[i].ok) => st.opens[i].n # st.opens[j].n
 OpensInMayOpen == \A i \in 1..Len(st.opens) : st.opens[i].n \in MayOpen(st.g)
-\* reachable cycle <=> (cycle) error, outcome and opens as the reference expansion says
-\* whenever none of the causes the property is silent about intervenes
-ImplMeetsRef == (Final(st) /\ st.out # "other") => (st.out = Ref(st.g).out /\ st.opens = Ref(st.g).opens)
-CycleSound == (Final(st) /\ st.out = "cycle") => HasCycle(st.g)
-OkSound == (Final(st) /\ st.out = "ok") => (~HasCycle(st.g) /\ ~EscReached(st.g) /\ \A f \in Reach(st.g) : CleanFile(st.g, f))
-OtherJustified == (Final(st) /\ st.out = "other") => OtherPossible(st.g)
-RunFnAgrees == st.out = "init" => (LET r == ImplRun(st.g) IN Final(r) /\ r.steps <= 2 + Len(st.g.refs) + 2 * Cardinality(st.g.files))
+\* outcome and opens exactly as the reference expansion says whenever none of the causes the
+\* property is silent about intervenes
+ImplMeetsRef == (Final(st) /\ st.out # "other") => (LET r == Ref(st.g) IN st.out = r.out /\ st.opens = r.opens)
+\* reachable cycle <=> cycle error (when nothing else fails first); ok only if nothing is wrong;
+\* "other" only where the reference says the property is silent (so that the class demand
+\* escape-not-found-class is never made where the implementation reports something else)
+OutcomeSound == Final(st) => LET F == Facts(st.g) IN
+                  /\ st.out = "cycle" => F.cyc
+                  /\ st.out = "ok" => (~F.cyc /\ F.esc = {} /\ \A f \in F.reach : CleanFile(st.g, f))
+                  /\ st.out = "other" => F.other
+                  /\ (F.cyc /\ ~F.other /\ F.esc = {}) => st.out \in {"cycle", "notexist"}
+\* the functional form of the model (used by the Trace specification) agrees with the actions
+RunFnSame == Final(st) => ImplRun(st.g) = st
 
 (* ---- case export ---- *)
 \* id = family number * 10^7 + position (the sequence is passed as an argument so that it is built once)
 CaseSeqOf(fi, S) == [j \in 1..Len(S) |-> LET g == GraphOf(fi, S[j]) IN
                        [id |-> fi * 10000000 + j, files |-> Fams[fi].files, entry |-> g.entry, refs |-> g.refs]]
-Cases == FlattenSeq([fi \in 1..Len(Fams) |-> CaseSeqOf(fi, SetToSeq(Codes(Fams[fi])))])
+Cases == FlattenSeq([fi \in 1..Len(Fams) |-> CaseSeqOf(fi, SetToSeq(CodeSets[fi]))])
 ASSUME ndJsonSerialize("cases.ndjson", Cases)
 =============================================================================
